@@ -256,6 +256,9 @@ func runProp(prop, tier, repo, verif string, workers int, seed int64, solverBin,
 		fmt.Fprintf(os.Stderr, "ENGINE-ERROR: load failed: %v\n", err)
 		return 2
 	}
+	if pd.Solver != "" && solverBin == "z3" {
+		solverBin = pd.Solver
+	}
 	tLoad := time.Since(t0).Seconds()
 	cfgs := pd.Instances(tier, L)
 	if only != "" {
